@@ -270,16 +270,18 @@ def detectOK (ps : List Piece) : Bool := detOK false ps
 def fmtSubstF : Nat → Str → List Str → Option Str
   | 0, _, _ => none
   | _ + 1, [], _ => some []
-  | fuel + 1, '{' :: '{' :: r, fv => (fmtSubstF fuel r fv).map ('{' :: ·)
-  | fuel + 1, '}' :: '}' :: r, fv => (fmtSubstF fuel r fv).map ('}' :: ·)
-  | fuel + 1, '{' :: r, fv =>
-    match idxOf '}' r, fv with
-    | some k, v :: fv' =>
-      let inside := r.take k
-      if inside = [] ∨ inside.head? = some ':' then (fmtSubstF fuel (r.drop (k + 1)) fv').map (v ++ ·) else none
-    | _, _ => none
-  | _ + 1, '}' :: _, _ => none
-  | fuel + 1, c :: r, fv => (fmtSubstF fuel r fv).map (c :: ·)
+  | fuel + 1, c :: r, fv =>
+    if c = '{' then
+      if r.head? = some '{' then (fmtSubstF fuel r.tail fv).map ('{' :: ·)
+      else
+        match idxOf '}' r, fv with
+        | some k, v :: fv' =>
+          if r.take k = [] ∨ (r.take k).head? = some ':' then (fmtSubstF fuel (r.drop (k + 1)) fv').map (v ++ ·)
+          else none
+        | _, _ => none
+    else if c = '}' then
+      if r.head? = some '}' then (fmtSubstF fuel r.tail fv).map ('}' :: ·) else none
+    else (fmtSubstF fuel r fv).map (c :: ·)
 
 def fmtSubst (t : Str) (fv : List Str) : Option Str := fmtSubstF (t.length + 1) t fv
 
